@@ -46,11 +46,30 @@ def gen_cases(tier, seed):
     return cases
 
 
+def compiled_cases(tier, seed):
+    """compiler output: U = prepare_for_mpc_evaluation(prepare_context(S)) as the optimiser's input"""
+    from . import progs_mpc
+    cases = []
+    allc = [c for c in progs_mpc.gen_cases("quick", seed) if c["st"] in ("i8", "u8", "bit") and not c["id"].startswith("B:")]
+    step = 12 if tier == "quick" else 3
+    for i, c in enumerate(allc):
+        if (i + seed) % step:
+            continue
+        cases.append(dict(id="U:" + c["id"], prog=c["prog"], in_types=c["in_types"], owners=c["owners"], outs=c["outs"], mode=c["mode"], compiled=True,
+                          vseed=c["vseed"], has_random=True, has_send=True, ops=["compiled"]))
+    return cases
+
+
 def build_job(case):
     rng = random.Random(case["vseed"])
     in_types = [T.from_json(j) for j in case["in_types"]]
     evals = []
     case["_eval_inputs"] = []
+    if case.get("compiled"):
+        io = dict(inputs=case["owners"], outputs=case["outs"], inline=case["mode"])
+        stages = [dict(op="prepare_context", **{"from": 0}, inline=case["mode"]), dict(op="prepare_mpc", **{"from": 1}, **io),
+                  dict(op="optimize", **{"from": 2}), dict(op="serde", **{"from": 3})]
+        return dict(id=case["id"], ctx=case["prog"], stages=stages, dump=[2, 3, 4], evals=[])
     for k in range(2):
         xs = [vals.sample_value(t, rng, "boundary" if k == 0 else "random") for t in in_types]
         enc = [vals.enc(t, d) for t, d in zip(in_types, xs)]
@@ -88,6 +107,12 @@ def analyze(args):
             out["status"] = "driver_fatal"
             out["note"] = str(res.get("fatal"))
             return out
+        if case.get("compiled"):
+            if not all(c.get("ok") for c in ctxs[:3]):
+                out["status"] = "rejected"
+                out["note"] = str([c.get("error") for c in ctxs[:3] if not c.get("ok")][:1])
+                return out
+            ctxs = ctxs[2:]  # G = U (prepare_for_mpc_evaluation output), O = optimize_context(U), then the reload
         if not ctxs[0].get("ok"):
             out["status"] = "rejected"
             out["note"] = ctxs[0].get("error", "")
@@ -118,7 +143,7 @@ def analyze(args):
                             out["findings"].append(dict(kind="type", text="node %d %s: optimiser recorded %s, type inference gives %s" % (i, op_name(a), a.get("type"), b.get("type"))))
                             break
         # send markers (syntactic part): every Send annotation of O exists in G
-        in_types = [T.from_json(j) for j in case["in_types"]]
+        in_types = [T.from_json(n["op"]["Input"]) for n in gG["nodes"] if op_name(n) == "Input"]
         # --- translator validation
         evs = res.get("evals", [])
         for k in range(len(evs) // 2):
@@ -150,6 +175,7 @@ def analyze(args):
         it = Interp(G, sym=True)
         xs = [it.fresh_value(t, "x%d" % i) for i, t in enumerate(in_types)]
         gv = it.run_graph(G["main"], xs)
+        g_rand = dict(it.rand_at)  # randomising symbols of the ORIGINAL graph only (the replay overrides these)
         g_err = list(it.errors)
         it.errors = []
         it.ctx = O
@@ -197,7 +223,7 @@ def analyze(args):
             eo = z3.Or(*it.errors) if it.errors else z3.BoolVal(False)
             bad = z3.Or(bad, eg != eo)
         want = [("x", i, x) for i, x in enumerate(xs)]
-        for (where, who), v in it.rand_at.items():
+        for (where, who), v in g_rand.items():
             want.append(("r", where, v))
         terms = []
         for _, _, v in want:
@@ -222,7 +248,7 @@ def analyze(args):
         elif r.verdict == "sat":
             status = "unknown"
         # --- three-view semantics when Send markers are present
-        if status == "unsat" and case.get("has_send"):
+        if status == "unsat" and (case.get("has_send") or case.get("compiled")):
             it3 = Interp(G, sym=True)
             in3 = [[it3.fresh_value(t, "x%d_p%d" % (i, p)) for p in range(3)] for i, t in enumerate(in_types)]
             gpv = it3.run_parties(G["main"], in3)
@@ -281,7 +307,7 @@ def judge_global(case, cex, rr, first):
 def main():
     chk = Check("C06", "translation_validation")
     chk.module = "symg.check_c06"
-    cases = gen_cases(chk.tier, chk.seed)
+    cases = gen_cases(chk.tier, chk.seed) + compiled_cases(chk.tier, chk.seed)
     timeout_s = 60 if chk.tier == "quick" else 300
     drv.build()
     results = drv.run_jobs([build_job(c) for c in cases])
@@ -302,7 +328,7 @@ def main():
         for f in o["findings"]:
             if f["kind"].startswith("rand_"):
                 continue  # reported by C04
-            if f["kind"] == "send" and f.get("inputs3") is not None and not c.get("has_random"):
+            if f["kind"] == "send" and f.get("inputs3") is not None and not c.get("has_random") and not c.get("compiled"):
                 # native replay: three-party executor on the original and on the optimised graph
                 in_types = [T.from_json(j) for j in c["in_types"]]
                 inputs3 = [[vals.enc(t, f["inputs3"][k][p]) for p in range(3)] for k, t in enumerate(in_types)]
@@ -332,21 +358,30 @@ def main():
     if replay:
         jobs = []
         for c, o in replay:
-            in_types = [T.from_json(j) for j in c["in_types"]]
-            enc = [vals.enc(t, d) for t, d in zip(in_types, o["cex"]["inputs"])]
+            if c.get("compiled"):
+                io = dict(inputs=c["owners"], outputs=c["outs"], inline=c["mode"])
+                stages = [dict(op="prepare_context", **{"from": 0}, inline=c["mode"]), dict(op="prepare_mpc", **{"from": 1}, **io), dict(op="optimize", **{"from": 2})]
+                gi, oi = 2, 3
+            else:
+                stages = [dict(op="optimize", **{"from": 0})]
+                gi, oi = 0, 1
+            c["_gi"], c["_oi"] = gi, oi
             ovrG = {}
             for key, d, tj in o["cex"]["rand"]:
-                import json as _json
                 t = T.from_json(eval(tj))
                 ovrG["%d:%d" % (key[-2], key[-1])] = vals.enc(t, d)
-            jobs.append(dict(id=c["id"], ctx=c["prog"], stages=[dict(op="optimize", **{"from": 0})], dump=[0, 1],
-                             evals=[dict(ctx=0, inputs=enc, overrides=ovrG)]))
+            jobs.append(dict(id=c["id"], ctx=c["prog"], stages=stages, dump=[gi, oi], evals=[dict(ctx=gi, inputs=None, overrides=ovrG)], _cex=o["cex"]["inputs"]))
+        # inputs are typed by G's own Input nodes: first pass only dumps, to learn the types
+        r0 = drv.run_jobs([dict(id=j["id"], ctx=j["ctx"], stages=j["stages"], dump=j["dump"]) for j in jobs])
+        for (c, o), j, rr in zip(replay, jobs, r0):
+            G = rr["contexts"][c["_gi"]]["dump"]
+            gts = [T.from_json(n["op"]["Input"]) for n in G["graphs"][G["main"]]["nodes"] if op_name(n) == "Input"]
+            j["evals"][0]["inputs"] = [vals.enc(t, d) for t, d in zip(gts, j.pop("_cex"))]
         r1 = drv.run_jobs(jobs)
         jobs2 = []
         for (c, o), j, rr in zip(replay, jobs, r1):
-            # second pass: O with each randomising node overridden by the value its preimage had in G's run
-            G, O = rr["contexts"][0]["dump"], rr["contexts"][1]["dump"]
-            mapping = rr["contexts"][1].get("mapping", {})
+            G, O = rr["contexts"][c["_gi"]]["dump"], rr["contexts"][c["_oi"]]["dump"]
+            mapping = rr["contexts"][c["_oi"]].get("mapping", {})
             pre = rand_preimages(G, O, mapping)
             tr = rr["evals"][0].get("nodes", {})
             ovrO = {}
@@ -354,14 +389,13 @@ def main():
                 if ps and str(ps[0]) in tr:
                     ovrO["%d:%d" % (O["main"], i)] = tr[str(ps[0])]
             j2 = dict(j)
-            j2["evals"] = [j["evals"][0], dict(ctx=1, inputs=j["evals"][0]["inputs"], overrides=ovrO)]
+            j2["evals"] = [j["evals"][0], dict(ctx=c["_oi"], inputs=j["evals"][0]["inputs"], overrides=ovrO)]
             jobs2.append(j2)
         r2 = drv.run_jobs(jobs2)
         for (c, o), j2, rr in zip(replay, jobs2, r2):
             chk.count("models_replayed")
             evG, evO = rr["evals"]
-            G, O = rr["contexts"][0]["dump"], rr["contexts"][1]["dump"]
-            mapping = rr["contexts"][1].get("mapping", {})
+            mapping = rr["contexts"][c["_oi"]].get("mapping", {})
             why = None
             if evG.get("ok") != evO.get("ok"):
                 why = "original evaluates ok=%s, optimised ok=%s (%s)" % (evG.get("ok"), evO.get("ok"), evO.get("error") or evG.get("error"))
@@ -384,7 +418,7 @@ def main():
                      "custom_ops::ContextMappings (returned mapping)", "graphs::Context serde round trip (re-runs type inference)"]
     chk.bounds = dict(programs=len(cases), ops_per_graph="4..10 (quick) / 4..16 (thorough) generated ops plus inputs", max_elements=8,
                       grammar="elementwise, dot/matmul/gemm, sum/cumsum, structural, tuple/named tuple/vector/zip/a2v/repeat + getters, constants/zeros/ones, A2B->B2A and B2A->A2B chains, Random, PRF (shared keys), NOP with Send, verbatim duplicates, dangling nodes, unused/named inputs")
-    chk.outside = ["graphs with more than ~40 nodes from this generator (compiler output is covered by C01's U=F' staging check and C04)", "Call/Iterate (optimiser requires inlined graphs)"]
+    chk.outside = ["compiler output beyond the sampled ring templates (every 12th 8-bit C01 program in quick, every 3rd in thorough)", "Call/Iterate (optimiser requires inlined graphs)"]
     chk.assumptions = ["Random nodes: the optimised node draws what its preimage (under the returned mapping) draws; PRF: congruence on (key term, iv, type)",
                        "three-view check: every party holds an arbitrary value for every input; values cross only at Send-annotated nodes"]
     chk.finish(dict(programs=len(cases), disagreements_checked=chk.counts.get("models_replayed", 0), evaluations=len(cases),
